@@ -53,8 +53,14 @@ def run(ctx):
         s = f.get("signer")
         okl = is_call(s, "MsgSigner::from_seed") and s[2][0] == ("param", ln.path, 1)
         sv = f.get("srv_value")
-        from lib import signer_pubkey
-        okl = okl and is_call(sv, "LongTermKey::calc_srv_value") and signer_pubkey(W, sv[2][0]) == s
+        from lib import signer_pubkey, digest_form
+        if is_call(sv, "LongTermKey::calc_srv_value"):
+            okl = okl and signer_pubkey(W, sv[2][0]) == s
+        else:
+            # the derivation written out in place (or through a helper that did not exist on the reference tree): the same SHA-512(0xff || key)[..32]
+            df0 = digest_form(W, W.ev(ln.path), sv)
+            okl = okl and df0 is not None and df0["alg"] == ("static", "ring::digest::SHA512") and df0["take"] == sp["common"]["srv_len"] and \
+                len(df0["pieces"]) == 2 and df0["pieces"][0] == ("bytes", bytes(sp["common"]["srv_prefix"])) and signer_pubkey(W, df0["pieces"][1]) == s
     pkb = ctx.fn(SIGNER + "::public_key_bytes")
     from lib import signer_pubkey
     rpk = W.ev(pkb.path).ret()
@@ -148,10 +154,10 @@ def run(ctx):
     if r[0] == "obj":
         okb, fields, why = sm.message_built(W, dev, r)
         d = {f[0]: f[1] for f in fields}
-        mi = W.frozen_init(d.get("MINT")) if d.get("MINT", ("x",))[0] == "obj" else d.get("MINT")
-        ma = W.frozen_init(d.get("MAXT")) if d.get("MAXT", ("x",))[0] == "obj" else d.get("MAXT")
-        okw = okb and mi == ("repeat", ("int", 0), 8) and ma == ("repeat", ("int", 255), 8) and signer_pubkey(W, d.get("PUBK")) is not None
-        det = "PUBK=%s MINT=%s MAXT=%s" % (fmt(d.get("PUBK")), fmt(mi), fmt(ma))
+        from lib import const_bytes
+        mi, ma = const_bytes(W, d.get("MINT")), const_bytes(W, d.get("MAXT"))
+        okw = okb and mi == bytes(8) and ma == b"\xff" * 8 and signer_pubkey(W, d.get("PUBK")) is not None
+        det = "PUBK=%s MINT=%r MAXT=%r" % (fmt(d.get("PUBK")), mi, ma)
     ctx.check("certificate", "delegation-window-contains-every-midpoint", okw, "DELE = {PUBK: online public key, MINT: 0, MAXT: 2^64-1}",
               "delegation is %s" % det, ctx.loc(md))
     mc = ctx.fn(sm.MAKE_CERT)
